@@ -24,7 +24,7 @@ PROP = "C08"
 CASE_TIMEOUT = 20.0
 MOD = __name__
 META = {
-    "rule": "L1: 33 fixed requires_python shapes (ranges, unions, !=X.Y.* holes, bounds inside a minor series, ~=, ==X.Y.Z, "
+    "rule": "L1: 37 fixed requires_python shapes (ranges, unions, !=X.Y.* holes, bounds inside a minor series, ~=, ==X.Y.Z, "
     "2.x) x 5 implementation/gil settings x the whole single-tag universe (cp/py/pp/pt x majors 2-3 x minors 0-20, py2/py3; "
     "abi none/abi3/cpXY[m|d|u|t|dt]/mismatching/pypyXY_pp73/pystonXY_23) - exhaustive; L2: Hypothesis requires_python texts x "
     "compressed tag sets. Non-trivial = requires_python neither universal nor empty and the tag's minor within 2 of one "
@@ -42,6 +42,8 @@ RPS = [
     ">3.9", ">=3.20", "<2.7", ">=3.6,<3.6.1", ">=3", "<3", "~=3.0", ">=3.13.0a1", "<3.12.0rc1", "!=3.9.1", ">=3.10,<3.10.0.post1", "==3.*",
     # unions one of whose branches ends (inclusively) exactly on a tag's X.Y
     "<=3.9||>=3.12", "<3.8||==3.10", "<=3.10||>=3.13",
+    # three and more ranges, the outermost ending (inclusively) / starting exactly on a tag's X.Y
+    "!=3.6.*,!=3.8.*,<=3.10", "==3.6.*||==3.8.*||==3.10.0", ">=3.7,!=3.8.*,!=3.10.*", ">=2.7,!=3.0.*,!=3.1.*,!=3.5.*,<=3.9",
 ]
 IMPLS = [[None, False], ["cpython", False], ["cpython", True], ["pypy", False], ["pyston", False]]
 PYT = [f"{p}{x}{y}" for p in ("cp", "py", "pp", "pt") for x in (2, 3) for y in range(0, 21)] + ["py2", "py3"]
@@ -67,7 +69,10 @@ class Admit:
     _cache: dict = {}
 
     def __init__(self, text):
+        import re
+
         sets = [SpecifierSet(p) for p in text.split("||")] if text != "<empty>" else []
+        has_pre = bool(re.search(r"\d\s*[._-]?(a|b|c|rc|alpha|beta|pre|preview|dev)\d*", text, re.I))
         self.coarse = set()
         self.probes = set()  # every admitted probe point (finals, sub-micro points, pre-releases)
         fine = set()
@@ -78,10 +83,18 @@ class Admit:
             if any(s.contains(f"{x}.{y}.{z}.1") for s in sets):
                 fine.add((x, y))
                 self.probes.add((x, y, z, 1))
-            # a pre-release of X.Y.0 lies, in the interval model, at the top of the X.(Y-1) series
-            if z == 0 and y > 0 and any(s.contains(f"{x}.{y}.0a1", prereleases=True) for s in sets):
-                fine.add((x, y - 1))
-                self.probes.add((x, y, 0, -1))
+            # a pre-release of X.Y.0 lies, in the interval model, at the top of the X.(Y-1) series. When the text
+            # holds no pre-/dev-release literal every bound is a final release, so that region is one interval cell
+            # with the final X.(Y-1).99999: ask about that one instead - packaging's prefix matching would admit
+            # 3.9.0a1 to "!=3.8.*", which the interval reading (<3.8.0 || >=3.9.0) does not
+            if z == 0 and y > 0:
+                if has_pre:
+                    top = any(s.contains(f"{x}.{y}.0a1", prereleases=True) for s in sets)
+                else:
+                    top = any(s.contains(f"{x}.{y - 1}.99999") for s in sets)
+                if top:
+                    fine.add((x, y - 1))
+                    self.probes.add((x, y, 0, -1))
         self.coarse_xy = {(x, y) for x, y, _ in self.coarse}
         # a minor series reachable only between two consecutive micro releases, or only through
         # pre-releases of the next series: the verdict depends on what counts as "a Python version"
